@@ -286,6 +286,149 @@ fn run_nonces(cx: &mut CaseCx, _case: &Value) {
   cx.sample(json!({"proofs_issued": seen.len(), "repeated_identical_requests": 4}));
 }
 
+
+// ---------------------------------------------------------------- calibrated forgery
+// A from-scratch replica of the challenge transcript, used ONLY to synthesise adversarial proofs: it is
+// calibrated against honest proofs of the real prover (which subset of {B, M, Z, t2, t3} does the real
+// challenge bind?). If the real challenge leaves a commitment unbound, a malicious server that knows its
+// key can prove a WRONG output; the harness builds that proof and hands it to the real Client::verify.
+// A violation is reported only if the real verifier accepts the forged evaluation.
+fn strobe_hash64(input: &[u8], label: &str) -> [u8; 64] {
+  let mut t = strobe_rs::Strobe::new(label.as_bytes(), strobe_rs::SecParam::B128);
+  t.key(input, false);
+  let mut out = [0u8; 64];
+  t.meta_ad(&(64u32).to_le_bytes(), false);
+  t.prf(&mut out, false);
+  out
+}
+fn h2s(input: &[u8], label: &str) -> Scalar {
+  Scalar::from_bytes_mod_order_wide(&strobe_hash64(input, label))
+}
+fn lp(out: &mut Vec<u8>, p: &RistrettoPoint) {
+  out.extend_from_slice(&32u16.to_be_bytes());
+  out.extend_from_slice(p.compress().as_bytes());
+}
+fn composites(b: &RistrettoPoint, c: &RistrettoPoint, d: &RistrettoPoint) -> (RistrettoPoint, RistrettoPoint) {
+  let ctx = "PPOPRFv1-3-ristretto255-strobe";
+  let mut st = vec![];
+  lp(&mut st, b);
+  st.extend_from_slice(&(ctx.len() as u16).to_be_bytes());
+  st.extend_from_slice(ctx.as_bytes());
+  let seed = strobe_hash64(&st, "Seed");
+  let mut ct = vec![];
+  ct.extend_from_slice(&64u16.to_be_bytes());
+  ct.extend_from_slice(&seed);
+  ct.extend_from_slice(&0u16.to_be_bytes());
+  lp(&mut ct, c);
+  lp(&mut ct, d);
+  let di = h2s(&ct, "Composite");
+  (di * c, di * d)
+}
+fn challenge_subset(pts: &[RistrettoPoint; 5], mask: u32) -> Scalar {
+  let mut t = vec![];
+  for (i, p) in pts.iter().enumerate() {
+    if mask >> i & 1 == 1 {
+      lp(&mut t, p);
+    }
+  }
+  h2s(&t, "Challenge")
+}
+
+fn run_forgery(cx: &mut CaseCx, _case: &Value) {
+  let w = world(cx, 0);
+  cx.entropy(450);
+  let md = 7u8;
+  let h = match honest(&w, md, b"forgery base") {
+    Ok(h) => h,
+    Err(_) => return,
+  };
+  let dec = |b: &[u8]| CompressedRistretto(b.try_into().unwrap()).decompress();
+  let slot = tag_slot(&w.pkb, md).unwrap();
+  let (bp, tp, inp, outp) = match (dec(&w.pkb[..32]), dec(&w.pkb[slot..slot + 32]), dec(&h.blinded), dec(&h.output)) {
+    (Some(a), Some(b), Some(c), Some(d)) => (a, b, c, d),
+    _ => return,
+  };
+  let b_pt = bp + tp;
+  let c0 = Option::<Scalar>::from(Scalar::from_canonical_bytes(h.proof[..32].try_into().unwrap()));
+  let s0 = Option::<Scalar>::from(Scalar::from_canonical_bytes(h.proof[32..64].try_into().unwrap()));
+  let (c0, s0) = match (c0, s0) {
+    (Some(c), Some(s)) => (c, s),
+    _ => return,
+  };
+  let (m, z) = composites(&b_pt, &outp, &inp);
+  let t2 = s0 * G + c0 * b_pt;
+  let t3 = s0 * m + c0 * z;
+  let pts = [b_pt, m, z, t2, t3];
+  cx.eval();
+  let bound: Option<u32> = (1..32u32).rev().find(|&mask| challenge_subset(&pts, mask) == c0);
+  let names = ["public value", "composite M", "composite Z", "commitment t2", "commitment t3"];
+  let mask = match bound {
+    None => {
+      cx.count("transcript_replica_unavailable", 1);
+      cx.note("the challenge of honest proofs matches no subset of the documented transcript (format changed?): forgery synthesis skipped, never an alarm");
+      return;
+    }
+    Some(m) => m,
+  };
+  cx.count("transcript_calibrated", 1);
+  cx.outcome(format!("challenge binds {:?}", (0..5).filter(|i| mask >> i & 1 == 1).map(|i| names[i]).collect::<Vec<_>>()));
+  if mask == 31 {
+    cx.count("challenge_binds_all_five", 1);
+    cx.nontrivial(31);
+    cx.sample(json!({"challenge_binds": names}));
+    // still try the two classic forgeries against the real verifier: they must be rejected
+  }
+  // tagged key of the server (a malicious server knows it): k + PRF(tag)
+  let k: Option<Scalar> = bincode::serialize(&w.server.get_private_key()).ok().and_then(|b| crate::ggmx::parse_export(&b)).and_then(|e| Option::from(Scalar::from_canonical_bytes(e.oprf_key)));
+  let mut leaf = [0u8; 32];
+  use ppoprf::PPRF;
+  let kt = match (k, w.server.verif_pprf().eval(&[md], &mut leaf)) {
+    (Some(k), Ok(())) => k + Scalar::from_bytes_mod_order(leaf),
+    _ => {
+      cx.count("server_key_unobservable", 1);
+      return;
+    }
+  };
+  if kt * G != b_pt {
+    cx.count("server_key_unobservable", 1);
+    return;
+  }
+  // wrong output: computed under key kt+1
+  let wrong = (kt + Scalar::ONE).invert() * inp;
+  let (m2, z2) = composites(&b_pt, &wrong, &inp);
+  let r = Scalar::from(0x1234_5678_9abc_u64) + c0; // any nonce
+  let mut attempts: Vec<(&str, Scalar, Scalar)> = vec![];
+  {
+    // strategy A (works iff t3 is not bound): honest Schnorr proof of knowledge of kt w.r.t. G only
+    let t2f = r * G;
+    let t3f = r * m2; // what an honest prover would put; irrelevant if unbound
+    let c = challenge_subset(&[b_pt, m2, z2, t2f, t3f], mask);
+    attempts.push(("t3 unbound: Schnorr proof for the public key only", c, r - c * kt));
+  }
+  {
+    // strategy B (works iff t2 is not bound): proof of knowledge of kt+1 w.r.t. base M'
+    let t3f = r * m2;
+    let t2f = r * G;
+    let c = challenge_subset(&[b_pt, m2, z2, t2f, t3f], mask);
+    attempts.push(("t2 unbound: Schnorr proof for the wrong key w.r.t. M", c, r - c * (kt + Scalar::ONE)));
+  }
+  for (how, c, s) in attempts {
+    let mut proof = c.to_bytes().to_vec();
+    proof.extend_from_slice(&s.to_bytes());
+    let ev = match ev_of(&wrong.compress().to_bytes(), &proof) {
+      Some(e) => e,
+      None => continue,
+    };
+    cx.eval();
+    cx.nontrivial(fnv_str(how));
+    match guard(|| pp::Client::verify(&w.pk, &pt(&h.blinded), &ev, md)) {
+      Ok(false) => cx.count("forgeries_rejected", 1),
+      Ok(true) => cx.viol("C13/sound/forged-proof-accepted", format!("Client::verify accepted a FORGED proof for an output computed under a different key ({}); the real challenge binds only {:?}", how, (0..5).filter(|i| mask >> i & 1 == 1).map(|i| names[i]).collect::<Vec<_>>()), json!({"strategy": how, "wrong_output": hex(wrong.compress().as_bytes()), "proof": hex(&proof), "challenge_binds": (0..5).filter(|i| mask >> i & 1 == 1).map(|i| names[i]).collect::<Vec<_>>()})),
+      Err(p) => cx.viol("C13/verify-panicked", p, json!({"strategy": how})),
+    }
+  }
+}
+
 pub fn spec() -> PropSpec {
   PropSpec {
     id: "C13",
@@ -309,6 +452,13 @@ pub fn spec() -> PropSpec {
         gen: |_| TAGS.iter().map(|&t| json!({"md": t})).collect(),
         run: run_soundness,
         min_counts: &[("tampering_rejected", 2000), ("rejected_at_load", 10)],
+      },
+      Check {
+        name: "forged-proofs",
+        rule: "adversarial synthesis: a replica of the challenge transcript is calibrated on honest proofs (which of public value, M, Z, t2, t3 does the real challenge bind?); with the server's tagged key (export + hook) the harness builds proofs for an output computed under key+1 by the two Schnorr strategies that succeed iff t3 resp. t2 is unbound, and hands them to the real Client::verify: must be rejected",
+        gen: |_| vec![json!({})],
+        run: run_forgery,
+        min_counts: &[],
       },
       Check { name: "nonces", rule: "commitment s*G + c*PK recomputed for every proof issued (6 inputs x 4 tags x the identical request repeated 4 times; then the same requests answered in lockstep by the original server, a clone, a clone of the clone and a server restored from the exported state): pairwise distinct", gen: |_| vec![json!({})], run: run_nonces, min_counts: &[("proofs_issued", 90)] },
     ],
